@@ -20,7 +20,8 @@ from ..runner import Check, pmap
 PID = "C09"
 
 MATH = ["sqrt", "abs", "cos", "sin", "tan", "acos", "asin", "atan", "cosh", "sinh", "tanh", "power", "powerint", "exp", "ln", "erf", "atan2",
-        "min", "max", "bessel_j", "bessel_y", "real", "imag", "conj", "cliteral", "cconst", "conjarg", "realarg", "clit-in-conj", "clit-in-conj2", "clit-trial", "cconst-in-conj"]
+        "min", "max", "bessel_j", "bessel_y", "real", "imag", "conj", "cliteral", "cconst", "conjarg", "realarg", "clit-in-conj", "clit-in-conj2", "clit-trial", "cconst-in-conj",
+        "div-ilit", "div-clit", "ilit-div", "sub-ilit", "neg-ilit", "pow-ilit"]
 
 
 MIXFN = ["sqrt", "abs", "cos", "sin", "tan", "acos", "asin", "atan", "cosh", "sinh", "tanh", "exp", "ln", "power"]
@@ -69,6 +70,9 @@ def math_form(name, cell, arity):
         "erf": lambda: ufl.erf(re(f)), "atan2": lambda: ufl.atan2(re(f), re(g)), "min": lambda: ufl.min_value(re(f), re(g)), "max": lambda: ufl.max_value(re(f), 1.0),
         "bessel_j": lambda: ufl.bessel_J(2, re(f)), "bessel_y": lambda: ufl.bessel_Y(1, re(g)),
         "real": lambda: ufl.real(f * g) + 2.0, "imag": lambda: ufl.imag(f * (1.0 + 0.5j)) + g if True else g, "conj": lambda: ufl.conj(f) * g,
+        # complex literals in every NON-commutative / unary position (a literal printed without its own parentheses changes meaning there)
+        "div-ilit": lambda: f / 2.0j + g / (-0.5j), "div-clit": lambda: f / (3.0 + 2.0j), "ilit-div": lambda: 2.0j / (1.5 + f) + (1.0 - 1.0j) / (2.0 + g),
+        "sub-ilit": lambda: f - 2.0j - (g - (1.0 + 1.0j)), "neg-ilit": lambda: -(2.0j) * f + (-(1.0 - 3.0j)) * g, "pow-ilit": lambda: (1.0 + f) ** 2 * (2.0j) ** 2 + f,
         "cliteral": lambda: (1.0 + 2.0j) * f, "cconst": lambda: k * ufl.conj(k) + k * f, "conjarg": lambda: f, "realarg": lambda: g,
     }.get(name, lambda: None)()
     if name in ("clit-in-conj", "clit-in-conj2", "clit-trial", "cconst-in-conj"):
